@@ -14,6 +14,8 @@ Init == tid \in 1..Len(Traces) /\ l = 0 /\ S!Init(Traces[tid].init)
 Next == /\ l < Len(Tr) /\ l' = l + 1 /\ UNCHANGED tid
         /\ \/ Ev.op = "next" /\ S!NextSequence /\ last' = Ev.ret         \* spec action + logged result
            \/ Ev.op = "set" /\ S!SetStart([kind |-> Ev.kind, value |-> Ev.value])
+           \/ Ev.op = "next_fail" /\ S!FailedRequest                       \* the call raised: allowed only while the start is unreadable
+           \/ Ev.op = "resolve" /\ S!Resolve(Ev.value)
 
 Verdict == /\ (l = Len(Tr)) => PrintT(ToJson([tid |-> tid, ok |-> TRUE, at |-> l]))
            /\ (l < Len(Tr) /\ ~ENABLED Next) =>
